@@ -41,17 +41,26 @@ class MessageExtractor:
 
             if isinstance(node, parsetree.Comment):
                 value = node.text.strip()
-                if in_translator_comments:
+                if (
+                    in_translator_comments
+                    and translator_comments
+                    and translator_comments[-1][0] == node.lineno - 1
+                ):
+                    # continues the comment on the line above
                     translator_comments.extend(
                         self._split_comment(node.lineno, value)
                     )
                     continue
+                in_translator_comments = False
                 for comment_tag in comment_tags:
                     if value.startswith(comment_tag):
+                        # a new translator comment; one still pending is
+                        # not immediately before anything any more
                         in_translator_comments = True
-                        translator_comments.extend(
-                            self._split_comment(node.lineno, value)
+                        translator_comments = self._split_comment(
+                            node.lineno, value
                         )
+                        break
                 continue
 
             if isinstance(node, parsetree.DefTag):
